@@ -17,8 +17,10 @@
 //! results as offsets in seconds (`lz.rt`: as Unix timestamps).
 use crate::val::*;
 use chrono::offset::__verif::Zone;
-use chrono::{DateTime, FixedOffset, Local, MappedLocalTime, NaiveDate, NaiveDateTime, NaiveTime, Offset, TimeZone};
+use chrono::format::ParseErrorKind;
+use chrono::{DateTime, FixedOffset, Local, MappedLocalTime, NaiveDate, NaiveDateTime, NaiveTime, Offset, TimeDelta, TimeZone, Utc};
 use std::cell::RefCell;
+use std::time::{Duration, UNIX_EPOCH};
 use std::panic::{catch_unwind, AssertUnwindSafe};
 
 thread_local! {
@@ -114,22 +116,67 @@ fn op_rt<Tz: TimeZone>(tz: &Tz, n: &NaiveDateTime) -> Val {
     })
 }
 
+fn kind_name(k: ParseErrorKind) -> &'static str {
+    match k {
+        ParseErrorKind::OutOfRange => "OutOfRange",
+        ParseErrorKind::Impossible => "Impossible",
+        ParseErrorKind::NotEnough => "NotEnough",
+        ParseErrorKind::Invalid => "Invalid",
+        ParseErrorKind::TooShort => "TooShort",
+        ParseErrorKind::TooLong => "TooLong",
+        ParseErrorKind::BadFormat => "BadFormat",
+        _ => "Unknown",
+    }
+}
+fn pair<Tz: TimeZone>(d: &DateTime<Tz>) -> Val { vtup(vec![off(d), vint(d.timestamp())]) }
+/// the conversions into and out of `DateTime<Local>` (public route only: they name `Local` itself)
+fn op_conv(n: &NaiveDateTime) -> Val {
+    guarded(|| {
+        let u: DateTime<Utc> = n.and_utc();
+        let x = u.timestamp();
+        let k = ((x.rem_euclid(2879) - 1439) * 60) as i32;
+        let f: DateTime<FixedOffset> = u.with_timezone(&FixedOffset::east_opt(k).unwrap());
+        let l1 = DateTime::<Local>::from(u);
+        let l2 = DateTime::<Local>::from(f);
+        let u3 = DateTime::<Utc>::from(l1);
+        let f4 = DateTime::<FixedOffset>::from(l1);
+        let text = format!("{:?}", f);
+        let p5 = match text.parse::<DateTime<Local>>() { Ok(l) => pair(&l), Err(e) => verr(kind_name(e.kind())) };
+        let t = if x >= 0 { UNIX_EPOCH + Duration::from_secs(x as u64) } else { UNIX_EPOCH - Duration::from_secs(x.unsigned_abs()) };
+        let l6 = DateTime::<Local>::from(t);
+        vtup(vec![pair(&l1), pair(&l2), pair(&u3), pair(&f4), p5, pair(&l6)])
+    })
+}
+
 fn scratch_dir() -> std::path::PathBuf {
     let d = std::env::temp_dir().join(format!("verif-c05-{}", std::process::id()));
     let _ = std::fs::create_dir_all(&d);
     d
 }
 
+/// `DateTime<Local>` at the instant, then `+=` / `-=` d seconds as TimeDelta and |d| seconds as
+/// core::time::Duration, each assignment under its own catch_unwind
+fn op_asg(d: i64, n: &NaiveDateTime) -> Val {
+    guarded(|| {
+        let a: DateTime<Local> = Local.from_utc_datetime(n);
+        let td = TimeDelta::try_seconds(d).unwrap();
+        let sd = Duration::from_secs(d.unsigned_abs());
+        vtup(vec![
+            guarded(|| { let mut x = a; x += td; pair(&x) }),
+            guarded(|| { let mut x = a; x -= td; pair(&x) }),
+            guarded(|| { let mut x = a; x += sd; pair(&x) }),
+            guarded(|| { let mut x = a; x -= sd; pair(&x) }),
+        ])
+    })
+}
+
 /// the public route: TZ=:/abs/path, chrono::Local on a fresh thread
-fn op_env(bytes: &[u8], dir: i128, ns: Vec<NaiveDateTime>) -> Val {
+fn op_env(bytes: &[u8], f: impl Fn(&NaiveDateTime) -> Val + Send + 'static, ns: Vec<NaiveDateTime>) -> Val {
     let path = scratch_dir().join("zone.tzif");
     if std::fs::write(&path, bytes).is_err() { return verr("IO"); }
     let saved = std::env::var_os("TZ");
     std::env::set_var("TZ", format!(":{}", path.display()));
-    let r = std::thread::spawn(move || {
-        vtup(ns.iter().map(|n| if dir == 0 { op_at(&Local, n) } else { op_loc(&Local, n) }).collect())
-    })
-    .join();
+    let r = std::thread::spawn(move || vtup(ns.iter().map(|n| f(n)).collect())).join();
     match saved { Some(v) => std::env::set_var("TZ", v), None => std::env::remove_var("TZ") }
     let _ = std::fs::remove_file(&path);
     match r { Ok(v) => v, Err(_) => Val::Panic }
@@ -161,7 +208,23 @@ pub fn dispatch(op: &str, a: &[Val]) -> Option<Val> {
             // a file the reader rejects would silently select the fall-back zone (C18's subject):
             // report the rejection instead of converting in whatever zone that is
             if let Err(e) = Zone::from_tzif(bytes) { return Some(err_of(&e)); }
-            Some(op_env(bytes, dir, ns))
+            Some(if dir == 0 { op_env(bytes, |n| op_at(&Local, n), ns) } else { op_env(bytes, |n| op_loc(&Local, n), ns) })
+        })(),
+        "lz.conv" => (|| {
+            if a.len() != 3 { return None; }
+            let ns = secs_list(&a[2])?;
+            let bytes = a[0].bytes()?;
+            if let Err(e) = Zone::from_tzif(bytes) { return Some(err_of(&e)); }
+            Some(op_env(bytes, op_conv, ns))
+        })(),
+        "lz.asg" => (|| {
+            if a.len() != 4 { return None; }
+            let d = a[2].i64()?;
+            if !(-10_000_000_000_000..=10_000_000_000_000).contains(&d) { return None; }
+            let ns = secs_list(&a[3])?;
+            let bytes = a[0].bytes()?;
+            if let Err(e) = Zone::from_tzif(bytes) { return Some(err_of(&e)); }
+            Some(op_env(bytes, move |n| op_asg(d, n), ns))
         })(),
         _ => return None,
     };
